@@ -89,6 +89,53 @@ def max_rest_run(tree):
     return best
 
 
+BINDERS = ("let", "let*", "assign", "assign-inline", "assign-lambda", "lambda")
+
+
+def contains_sym(tree, names):
+    if tree[0] == "sym":
+        return tree[1] in names
+    if tree[0] == "list":
+        return any(contains_sym(x, names) for x in tree[1]) or (tree[2] is not None and contains_sym(tree[2], names))
+    return False
+
+
+def rest_call_of_binding_inline(tree):
+    """a call `(f … &rest t)` of a defun-inline whose body contains a binding form."""
+    inl = set()
+    for f in tree[1]:
+        if f[0] == "list" and len(f[1]) == 4 and f[1][0] == ("sym", "defun-inline") and contains_sym(f[1][3], BINDERS):
+            inl.add(f[1][1][1])
+    if not inl:
+        return False
+
+    def walk(t):
+        if t[0] != "list":
+            return False
+        it = t[1]
+        if it and it[0][0] == "sym" and it[0][1] in inl and ("sym", "&rest") in it:
+            return True
+        return any(walk(x) for x in it)
+    return walk(tree)
+
+
+def feopt_on(entry):
+    return entry.startswith("text:") or (entry.startswith("file:") and entry[6] == "1")
+
+
+_feopt_cache = {}
+
+
+def feopt_specific(p, k, expected):
+    """is the cl22 failure absent when the same program is compiled with frontend_opt off?"""
+    key = (p["text"], k)
+    if key not in _feopt_cache:
+        line = "file:000 " + p["text"].encode().hex() + " " + gen.hexv(p["args"][k])
+        out = lib.run_impl("compile", [line], timeout=60)[0].split()
+        _feopt_cache[key] = len(out) > 2 and out[0] == "C" and out[2] == expected
+    return _feopt_cache[key]
+
+
 def classify(pid, p, entry, src_out, impl_out, proghex):
     """signature of an oracle failure (used to match known findings)."""
     d = p["dialect"]
@@ -96,6 +143,8 @@ def classify(pid, p, entry, src_out, impl_out, proghex):
         return "compile:cl22-feopt-leaked-name"
     if d == "strict21" and optimizing(entry) and "ff0140" in proghex:
         return "compile:strict21-opt-quoted-at"
+    if d != "cl22" and rest_call_of_binding_inline(p["tree"]):
+        return "compile:inline-rest-binding-form"
     if classic_optimised(d, entry) and max_rest_run(p["tree"]) >= 15:
         return "compile:classic-opt-signed-path"
     return f"compile:{pid}:{d}:{entry}:value-mismatch"
@@ -133,6 +182,9 @@ def differential(chk, pid, progs, entries, label, model_lines=None, extra_check=
                 chk.count(f"{label}:src-{s[0]}/impl-{r[0]}")
                 if s[0] == "V" and s != r:
                     sig = classify(pid, p, e, s, r, f[1])
+                    if p["dialect"] == "cl22" and sig.endswith("value-mismatch") and feopt_on(e):
+                        if feopt_specific(p, k, s):
+                            sig = "compile:cl22-feopt-unsound"
                     chk.fail("oracle", sig,
                              {"dialect": p["dialect"], "entry": e, "program": p["text"], "args": gen.hexv(p["args"][k]),
                               "args_text": gen.show(p["args"][k])},
